@@ -41,6 +41,7 @@ contract("HpcManager.__init__", kind="assumed", params=[("submission_groups", "O
 contract("HpcManager.cancel_job", kind="assumed", params=[("self", "Ref[HpcManager]"), ("job_id", "Name")], returns="int",
          ensures=["forall(x, Name, (x in ghost.scanceled) == (x in old(ghost.scanceled) or x == job_id))"], modifies=["ghost.scanceled", "ghost.execs", "ghost.last_ret"],
          note="HpcManager.cancel_job -> SlurmManager.cancel_job (verified in C18): runs `scancel <id>` once")
+ghost("cancel_persisted", "bool")      # the canceled flag was written to disk by cancel_jobs
 _mc = contract.__globals__["CONTRACTS"]["Cluster.mark_canceled"]
 contract("JobSubmitter.cancel_jobs", file=F,
          params=[("self", "Ref[JobSubmitter]"), ("cluster", "Ref[Cluster]")],
@@ -50,11 +51,13 @@ contract("JobSubmitter.cancel_jobs", file=F,
              "forall(i, range(len(val(cluster._job_status).hpc_job_ids)), val(cluster._job_status).hpc_job_ids[i] in ghost.scanceled)",
              "cluster._config.is_canceled and cfg_mirrored(cluster)",
              "not ghost.cluster_lock",
+             "Inv_handle(cluster) and cluster.g_promoted and ghost.runs == old(ghost.runs)",
          ],
+         ghost_ensures=["ghost.cancel_persisted"],
          loops={1: {"invariant": ["forall(i, range(_k1), _it1[i] in ghost.scanceled)", "subset(old(ghost.scanceled), ghost.scanceled)"]}},
          raises={k: dict(v, when=[w.replace("self", "cluster") for w in v.get("when", [])],
                          ensures=[e.replace("self", "cluster") for e in v.get("ensures", [])], iff=False, frame=False) for k, v in _mc.raises.items()},
-         modifies=[m.replace("self.", "cluster.") for m in _mc.modifies] + ["ghost.scanceled", "ghost.execs", "ghost.last_ret",
+         modifies=[m.replace("self.", "cluster.") for m in _mc.modifies] + ["ghost.cancel_persisted", "ghost.scanceled", "ghost.execs", "ghost.last_ret",
                    "HpcManager._output", "HpcManager._hpc_type", "HpcManager._configs", "HpcManager._intfs"])
 
 # ---- completion (C03, C05, C12, C15, C16) -----------------------------------------------------------------------------
